@@ -244,7 +244,10 @@ def crash_family(res, ctx, tag, kinds, n_quick, n_thorough, io_mix=(0, 0, 0, 0, 
         nsteps = rng.choice([8, 14, 20]) if ctx.quick else rng.choice([10, 20, 30])
         if io == 1:
             nsteps = 6 if ctx.quick else 10    # every recovery of an mmap image reads its 1 GiB zero extension
-        ops, cfg = crashcheck.workload(rng, io=io, kind=kind, nsteps=nsteps)
+        if kind == "merge-multi":
+            ops, cfg = crashcheck.merge_workload(rng, io=io)
+        else:
+            ops, cfg = crashcheck.workload(rng, io=io, kind=kind, nsteps=nsteps)
         items.append((i, kind, io, ops, cfg))
 
     def job(it):
@@ -265,7 +268,7 @@ def crash_family(res, ctx, tag, kinds, n_quick, n_thorough, io_mix=(0, 0, 0, 0, 
 
 
 def check_C03(res, ctx):
-    crash_family(res, ctx, "C03", ["mixed", "mixed", "batch", "sync-batch"], 16, 160)
+    crash_family(res, ctx, "C03", ["mixed", "mixed", "batch", "sync-batch"], 10, 160)
     return "every intercepted I/O event of short workloads is a crash point (process death image) and, for files with an unsynced tail, " \
            "power-loss images cut to synced / middle / all-but-one byte (thorough: every length for tails <= 300 bytes and +-12 around block " \
            "boundaries); oracle: Open succeeds, the recovered mapping is the reference state after j acknowledged mutations with " \
@@ -273,7 +276,7 @@ def check_C03(res, ctx):
 
 
 def check_C04(res, ctx):
-    crash_family(res, ctx, "C04", ["batch", "batch", "sync-batch"], 12, 120)
+    crash_family(res, ctx, "C04", ["batch", "batch", "sync-batch"], 7, 120)
     # durability across clean restarts, later histories with merges
     n = 10 if ctx.quick else 150
     for i in range(n):
@@ -457,7 +460,7 @@ def check_C06(res, ctx):
 
 
 def check_C07(res, ctx):
-    crash_family(res, ctx, "C07", ["merge"], 6, 120, io_mix=(0, 0, 0, 0, 0, 0, 0, 0, 0, 0, 0, 1), cuts_quick="none", cuts_thorough="none",
+    crash_family(res, ctx, "C07", ["merge-multi", "merge", "merge-multi"], 6, 120, io_mix=(0, 0, 0, 0, 0, 0, 0, 0, 0, 0, 0, 1), cuts_quick="none", cuts_thorough="none",
                  level2=not ctx.quick)
     return "every I/O event and every crash point (merge phases, each rename / remove / hint move / marker removal / directory removal of the " \
            "adoption step) of histories with Merge and restarts is a crash image; each image is reopened once and twice and must show exactly the " \
@@ -467,6 +470,8 @@ def check_C07(res, ctx):
 def check_C08(res, ctx):
     from . import conccheck
     conccheck.check_kv_schedules(res, ctx, [1, 3] if ctx.quick else [1, 2, 3])
+    # a concurrent Merge: writers inside the window right after Merge released the lock, and inside its scan loop
+    conccheck.check_merge_concurrent(res, ctx, rng_for(ctx.seed, "C08m"), [3] if ctx.quick else [1, 2, 3], 6 if ctx.quick else 40)
     # free-running clients: live mapping vs restart at quiescence
     for i in range(2 if ctx.quick else 12):
         rep, err, rc = conccheck.run_race(ctx, 3 if ctx.quick else 20, [2, 8, 16][i % 3], 1 + i % 3, 0, ctx.seed * 100 + i, race=False)
@@ -537,7 +542,10 @@ def check_C14(res, ctx):
                        weights={"reopen": 0, "merge": 2, "keys": 4, "fold": 3, "batch": 0 if batch_free else 8}, max_val=rng.choice([800, 40000]))
         body = g.history(60 if ctx.quick else 120)[1:-1]
         # iterators are part of the transcript too
-        body += ["it.new a - 0", "it.next a", "it.next a", "it.close a", "it.new b - 1", "it.next b", "it.close b"]
+        # snapshot semantics are part of the transcript: overwrite / delete keys behind an open iterator
+        live_keys = [k.hex() for k in g.keys[:4]]
+        body += ["it.new a - 0", "it.new b - 1"] + ["put %s p%d:%d" % (k, 9000 + j, 33 + j) for j, k in enumerate(live_keys)] + \
+                ["del " + live_keys[0]] + ["it.next a", "it.next b"] * 6 + ["it.close a", "it.close b"]
         scrib = ["scribble on"] if i % 3 == 0 else []
         transcripts = []
         for j in range(pairs_per):
@@ -824,7 +832,14 @@ def check_C18(res, ctx):
                        max_val=rng.choice([300, 3000]))
         g.keys = sorted(set(g.keys + [bytes([0x80, 0x01]), bytes([0xff] * 9 + [0x01]), b"\x00", bytes(range(200, 255)) * 20]))
         ops = g.history(50)[:-3]
-        nfiles_before = None
+        if i % 2 == 1:
+            # an earlier merge of the same directory has already been adopted (its hint file sits in the data directory)
+            ops += ["merge", "close", engine.open_line("d", cfg)]
+            for _ in range(12):
+                g.ops = []
+                g.step()
+                ops += [o for o in g.ops if o.split()[0] not in ("merge", "close", "open", "dump", "stat", "files")]
+            res.count("second_merge_of_directory")
         ops += ["merge", "dump", "files d-merge", "close"]
         base = ctx.scratch.fresh()
         try:
@@ -881,7 +896,13 @@ def check_C18(res, ctx):
             keys_hex = sorted(set(hk))
             probe = ["pos " + kx for kx in keys_hex[:40] if kx != "-"]
             ops3 = [engine.open_line("d", cfg)] + ["dump", "stat"] + probe + ["close", engine.open_line("d", cfg), "dump", "stat"] + probe + ["close"]
+            ops3 += ["df.open d 0 0 hint", "df.scanhint", "df.close"]
             outs3 = run_impl(ops3, base)
+            adopted_hint = outs3[-2].split()[1:-1]
+            if adopted_hint != hint:
+                res.violation("merge %d: the hint file in the data directory after adoption (%d entries) is not the hint the merge wrote (%d entries)" % (
+                    i, len(adopted_hint), len(hint)), {"ops": ops + ops2 + ops3})
+                continue
             h = len(probe) + 3
             first, second = outs3[1:h], outs3[h + 2:2 * h + 1]
             if outs3[0] != "ok" or outs3[h + 1] != "ok":
@@ -953,7 +974,7 @@ def check_C20(res, ctx):
         ops += ["close", engine.open_line("d", cfg), "dump", "close"]
         for bname in backups:
             rcfg = engine.rand_cfg(rng, io=rng.choice([0, io]))
-            ops += ["haslock " + bname, engine.open_line(bname, rcfg), "dump", "put 7a7a x01", "dump", "close", engine.open_line(bname, rcfg), "dump", "close"]
+            ops += ["haslock " + bname, "files " + bname, engine.open_line(bname, rcfg), "dump", "put 7a7a x01", "dump", "close", engine.open_line(bname, rcfg), "dump", "close"]
         ops += [engine.open_line("d", cfg), "dump", "close"]
         base = ctx.scratch.fresh()
         try:
@@ -968,6 +989,11 @@ def check_C20(res, ctx):
             j, msg = orc.problems[0]
             res.violation("backup run %d (io=%d): %s" % (i, io, msg), {"ops": ops[:j + 1], "problem": msg})
             continue
+        for op, o in zip(ops, outs):
+            if op.startswith("files b") and o.startswith("files "):
+                for it in [x for x in o[6:].split(",") if x]:
+                    if int(it.rsplit(":", 1)[1]) >= 1 << 28:
+                        res.violation("backup run %d: the copy contains a file at its memory-mapped extended size: %s" % (i, it), {"ops": ops})
         lk = [o for op, o in zip(ops, outs) if op.startswith("haslock")]
         if any(x != "lock absent" for x in lk):
             res.violation("backup run %d: the copy carries the source's lock file" % i, {"ops": ops})
